@@ -504,7 +504,11 @@ struct Engine : public vf::Engine {
                 Str key = sfmt("%d|%d|%d|%d|", (int)o.a, (int)o.d, (int)(o.c & 2), (int)(o.c & 4)) + joinIdx(keyVals);
                 bool dupKey = std::find(classes.begin(), classes.end(), key) != classes.end();
                 bool fnSeen = false; for (size_t k = 0; k < classes.size(); k++) if (atoi(classes[k].c_str()) == (int)o.a) fnSeen = true;
-                if ((o.c & 1) && fnSeen) continue;                        // an ignore-other-parameters expectation is the only class of its function
+                if ((o.c & 1) && fnSeen && !dupKey) {                     // an ignore-other-parameters expectation is the only *class* of its function: repeat the same one
+                    bool found = false; for (size_t k = 0; k < G.ops.size(); k++) if (G.ops[k].kind == M_EXPECT && G.ops[k].a == o.a && (G.ops[k].c & 1)) { vals = parseIdx(G.ops[k].s); o.d = G.ops[k].d; o.c = G.ops[k].c; found = true; break; }
+                    if (!found) continue;
+                    keyVals = vals; keyVals.pop_back(); key = sfmt("%d|%d|%d|%d|", (int)o.a, (int)o.d, (int)(o.c & 2), (int)(o.c & 4)) + joinIdx(keyVals); dupKey = true;
+                }
                 if (o.b == 0 && fnSeen) continue;                         // expectNoCall only for functions that are otherwise unexpected
                 if (dupKey && strict) continue;
                 if (dupKey) { /* the same class again: multiplicities add up */ }
